@@ -20,7 +20,9 @@ CONSTANTS N,          \* contexts 1..N
           Aborts,     \* TRUE: attempts may abort
           SendLast,   \* TRUE: after a TCP send an attempt does nothing that can grow its clock (no read, no shared
                       \* variable access): excludes the shape for which no small repair exists
-          Record      \* TRUE: keep the program text (generator mode)
+          Record,     \* TRUE: keep the program text (generator mode)
+          OnlyBad     \* generator mode: print only behaviours on which THIS model (Fix) violates Causal, i.e. TLC's
+                      \* counterexamples become the programs replayed on the real runtime
 
 VARIABLES S, cur, k, total, nops, reads, wrote, val, wval, chq, tq, ctaken, ttaken, csent, tsent, wlog, ok,
           opl, commits, hist, emitted
@@ -121,7 +123,7 @@ Finish(ab) ==
     /\ UNCHANGED <<k, total, emitted>>
 
 (* generator mode: print the finished behaviour as one case *)
-Emit == /\ Record /\ ~emitted /\ cur = 0 /\ total = MaxAtt
+Emit == /\ Record /\ ~emitted /\ cur = 0 /\ total = MaxAtt /\ (OnlyBad => ~ok)
         /\ PrintT("C18CASE " \o ToJson([n |-> N, atts |-> hist]))
         /\ emitted' = TRUE
         /\ UNCHANGED <<S, cur, k, total, nops, reads, wrote, val, wval, chq, tq, ctaken, ttaken, csent, tsent, wlog, ok,
